@@ -662,6 +662,20 @@ impl<Writer: Write> Mp4Writer<Writer> {
                 "video width and height must fit in 16 bits",
             ));
         }
+        // avcC / hvcC store every parameter set behind a 16-bit length.
+        let parameter_set_too_long = match &self.video_config {
+            Some(VideoConfig::Avc(c)) => c.sps.len().max(c.pps.len()) > u16::MAX as usize,
+            Some(VideoConfig::Hevc(c)) => {
+                c.vps.len().max(c.sps.len()).max(c.pps.len()) > u16::MAX as usize
+            }
+            _ => false,
+        };
+        if parameter_set_too_long {
+            return Err(io::Error::new(
+                io::ErrorKind::InvalidInput,
+                "video parameter sets must fit in a 16-bit length",
+            ));
+        }
         self.finalized = true;
 
         let video_config = self
